@@ -32,6 +32,9 @@ static char TOOLDIR[600], TMPD[600];
 struct result { int status; /* exit code, or 1000+signal */ char *out, *err; int sanitizer; };
 static void result_free(struct result *r) { free(r->out); free(r->err); r->out = r->err = NULL; }
 static uint64_t nproc_spawned;
+#define TOOL_TIMEOUT 20.0
+#include <signal.h>
+#include <time.h>
 
 static void run_tool(const char *tool, char *const args[], const char *input, struct result *r)
 {
@@ -49,8 +52,16 @@ static void run_tool(const char *tool, char *const args[], const char *input, st
   nproc_spawned++;
   if (posix_spawn(&pid, exe, &fa, NULL, argv, environ) != 0) { r->status = 2000; r->out = strdup(""); r->err = strdup("spawn failed"); posix_spawn_file_actions_destroy(&fa); return; }
   posix_spawn_file_actions_destroy(&fa);
-  while (waitpid(pid, &st, 0) < 0 && errno == EINTR) ;
-  r->status = WIFEXITED(st) ? WEXITSTATUS(st) : 1000 + WTERMSIG(st);
+  /* horizon: a tool that runs for more than TOOL_TIMEOUT seconds is killed and reported as a hang (status 3000) */
+  double t0 = mc_now(); int hung = 0;
+  for (;;) {
+    pid_t w = waitpid(pid, &st, WNOHANG);
+    if (w == pid) break;
+    if (w < 0 && errno != EINTR) break;
+    if (mc_now() - t0 > TOOL_TIMEOUT) { kill(pid, SIGKILL); while (waitpid(pid, &st, 0) < 0 && errno == EINTR) ; hung = 1; break; }
+    struct timespec ts = { 0, (mc_now() - t0 < 0.05) ? 200000 : 5000000 }; nanosleep(&ts, NULL);
+  }
+  r->status = hung ? 3000 : WIFEXITED(st) ? WEXITSTATUS(st) : 1000 + WTERMSIG(st);
   r->out = univ_read_file(fout, NULL); r->err = univ_read_file(ferr, NULL);
   if (!r->out) r->out = strdup(""); if (!r->err) r->err = strdup("");
   r->sanitizer = strstr(r->err, "AddressSanitizer") || strstr(r->err, "runtime error:") || strstr(r->err, "LeakSanitizer") || r->status == 99;
@@ -62,7 +73,7 @@ static int crashed(const char *tool, char *const args[], const struct result *r,
   if (r->status < 1000 && !r->sanitizer) return 0;
   struct sb b; sb_init(&b); argtext(&b, tool, args);
   char first[300]; snprintf(first, sizeof(first), "%.250s", r->err); for (char *p = first; *p; p++) if (*p == '\n') *p = ' ';
-  mc_violation(r->status >= 1000 ? "c20.crash" : "c20.sanitizer", "%s :: %s %s: status %d, stderr: %s", mc_case_text(), b.s, inputnote ? inputnote : "", r->status, first);
+  mc_violation(r->status == 3000 ? "c20.hang" : r->status >= 1000 ? "c20.crash" : "c20.sanitizer", "%s :: %s %s: status %d, stderr: %s", mc_case_text(), b.s, inputnote ? inputnote : "", r->status, first);
   sb_free(&b); return 1;
 }
 
@@ -85,7 +96,7 @@ static void load_topos(void)
 enum { R_ONE, R_RANGE, R_FROM, R_WRAP, R_ALL, R_ODD, R_EVEN };
 struct range { int kind; int a, b; };
 struct level { int depth; char name[32]; struct range r; };
-enum { L_ALL, L_ROOT, L_SET, L_OBJ };
+enum { LK_ALL, LK_ROOT, LK_SET, LK_OBJ };
 struct loc { char op; /* 0, '~', 'x', '^' */ int kind; hwloc_bitmap_t set; int nlev; struct level lv[3]; char text[160]; };
 
 static void range_text(struct sb *b, const struct range *r)
@@ -99,8 +110,8 @@ static void loc_text(struct loc *l, int fmt /* 0 hwloc 1 list 2 taskset */)
 {
   struct sb b; sb_init(&b);
   if (l->op) sb_putc(&b, l->op);
-  if (l->kind == L_ALL) sb_puts(&b, "all"); else if (l->kind == L_ROOT) sb_puts(&b, "root");
-  else if (l->kind == L_SET) { char *s; if (fmt == 1) hwloc_bitmap_list_asprintf(&s, l->set); else if (fmt == 2) hwloc_bitmap_taskset_asprintf(&s, l->set); else hwloc_bitmap_asprintf(&s, l->set); sb_puts(&b, s); free(s); }
+  if (l->kind == LK_ALL) sb_puts(&b, "all"); else if (l->kind == LK_ROOT) sb_puts(&b, "root");
+  else if (l->kind == LK_SET) { char *s; if (fmt == 1) hwloc_bitmap_list_asprintf(&s, l->set); else if (fmt == 2) hwloc_bitmap_taskset_asprintf(&s, l->set); else hwloc_bitmap_asprintf(&s, l->set); sb_puts(&b, s); free(s); }
   else for (int i = 0; i < l->nlev; i++) { if (i) sb_putc(&b, '.'); sb_printf(&b, "%s:", l->lv[i].name); range_text(&b, &l->lv[i].r); }
   snprintf(l->text, sizeof(l->text), "%s", b.s); sb_free(&b);
 }
@@ -148,7 +159,7 @@ static void nodes_of_cpuset(hwloc_topology_t t, hwloc_const_bitmap_t c, hwloc_bi
 static void cpus_of_nodeset(hwloc_topology_t t, hwloc_const_bitmap_t n, hwloc_bitmap_t c)
 { hwloc_obj_t o = NULL; hwloc_bitmap_zero(c); while ((o = hwloc_get_next_obj_by_type(t, HWLOC_OBJ_NUMANODE, o)) != NULL) if (hwloc_bitmap_isset(n, o->os_index)) hwloc_bitmap_or(c, c, o->cpuset); }
 
-struct optset { const char *name; char *args[8]; int fmt; int physical_in, physical_out, nodeset_in, nodeset_out; int mode; /* 0 set, 1 -N, 2 -I, 3 --largest, 4 --single, 5 -H */ int depth, depth2; };
+struct optset { const char *name; char *args[8]; int fmt; /* output format */ int infmt; /* format of set literals on input */ int physical_in, physical_out, nodeset_in, nodeset_out; int mode; /* 0 set, 1 -N, 2 -I, 3 --largest, 4 --single, 5 -H */ int depth, depth2; };
 
 static void eval_expr(hwloc_topology_t t, struct loc **ls, int nl, const struct optset *o, hwloc_bitmap_t rc, hwloc_bitmap_t rn)
 {
@@ -156,8 +167,8 @@ static void eval_expr(hwloc_topology_t t, struct loc **ls, int nl, const struct 
   hwloc_bitmap_t c = hwloc_bitmap_alloc(), n = hwloc_bitmap_alloc();
   for (int i = 0; i < nl; i++) {
     struct loc *l = ls[i]; hwloc_bitmap_zero(c); hwloc_bitmap_zero(n);
-    if (l->kind == L_ALL || l->kind == L_ROOT) { hwloc_bitmap_copy(c, hwloc_topology_get_topology_cpuset(t)); hwloc_bitmap_copy(n, hwloc_topology_get_topology_nodeset(t)); }
-    else if (l->kind == L_SET) { if (o->nodeset_in) { hwloc_bitmap_copy(n, l->set); cpus_of_nodeset(t, l->set, c); } else { hwloc_bitmap_copy(c, l->set); nodes_of_cpuset(t, l->set, n); } }
+    if (l->kind == LK_ALL || l->kind == LK_ROOT) { hwloc_bitmap_copy(c, hwloc_topology_get_topology_cpuset(t)); hwloc_bitmap_copy(n, hwloc_topology_get_topology_nodeset(t)); }
+    else if (l->kind == LK_SET) { if (o->nodeset_in) { hwloc_bitmap_copy(n, l->set); cpus_of_nodeset(t, l->set, c); } else { hwloc_bitmap_copy(c, l->set); nodes_of_cpuset(t, l->set, n); } }
     else eval_levels(t, l, 0, hwloc_topology_get_complete_cpuset(t), hwloc_topology_get_complete_nodeset(t), o->physical_in, c, n);
     apply(rc, c, l->op); apply(rn, n, l->op);
   }
@@ -212,22 +223,22 @@ static void gen_locs(hwloc_topology_t t, int rich)
   NLOCS = 0;
   struct lvl L[40]; int nl = levels_of(t, L);
   struct loc *l;
-  l = newloc(); l->kind = L_ALL; l = newloc(); l->kind = L_ROOT;
+  l = newloc(); l->kind = LK_ALL; l = newloc(); l->kind = LK_ROOT;
   /* set literals */
   {
     hwloc_const_bitmap_t cs = hwloc_topology_get_complete_cpuset(t); int first = hwloc_bitmap_first(cs), last = hwloc_bitmap_last(cs);
-    l = newloc(); l->kind = L_SET; l->set = hwloc_bitmap_alloc(); hwloc_bitmap_set(l->set, first);
-    l = newloc(); l->kind = L_SET; l->set = hwloc_bitmap_alloc(); hwloc_bitmap_set(l->set, last);
-    l = newloc(); l->kind = L_SET; l->set = hwloc_bitmap_alloc(); hwloc_bitmap_set_range(l->set, first, first + 1);
-    l = newloc(); l->kind = L_SET; l->set = hwloc_bitmap_dup(hwloc_topology_get_topology_cpuset(t));
-    l = newloc(); l->kind = L_SET; l->set = hwloc_bitmap_alloc(); hwloc_bitmap_set(l->set, last + 1);       /* outside */
-    l = newloc(); l->kind = L_SET; l->set = hwloc_bitmap_alloc();                                            /* empty */
-    if (rich) { l = newloc(); l->kind = L_SET; l->set = hwloc_bitmap_alloc(); for (int i = first; i <= last; i += 2) hwloc_bitmap_set(l->set, i); }
+    l = newloc(); l->kind = LK_SET; l->set = hwloc_bitmap_alloc(); hwloc_bitmap_set(l->set, first);
+    l = newloc(); l->kind = LK_SET; l->set = hwloc_bitmap_alloc(); hwloc_bitmap_set(l->set, last);
+    l = newloc(); l->kind = LK_SET; l->set = hwloc_bitmap_alloc(); hwloc_bitmap_set_range(l->set, first, first + 1);
+    l = newloc(); l->kind = LK_SET; l->set = hwloc_bitmap_dup(hwloc_topology_get_topology_cpuset(t));
+    l = newloc(); l->kind = LK_SET; l->set = hwloc_bitmap_alloc(); hwloc_bitmap_set(l->set, last + 1);       /* outside */
+    l = newloc(); l->kind = LK_SET; l->set = hwloc_bitmap_alloc();                                            /* empty */
+    if (rich) { l = newloc(); l->kind = LK_SET; l->set = hwloc_bitmap_alloc(); for (int i = first; i <= last; i += 2) hwloc_bitmap_set(l->set, i); }
   }
   struct range R[32], R2[32];
   for (int a = 0; a < nl; a++) {
     int nr = ranges_for(L[a].width, R, rich);
-    for (int r = 0; r < nr; r++) { l = newloc(); l->kind = L_OBJ; l->nlev = 1; l->lv[0].depth = L[a].depth; snprintf(l->lv[0].name, 32, "%s", L[a].name); l->lv[0].r = R[r]; }
+    for (int r = 0; r < nr; r++) { l = newloc(); l->kind = LK_OBJ; l->nlev = 1; l->lv[0].depth = L[a].depth; snprintf(l->lv[0].name, 32, "%s", L[a].name); l->lv[0].r = R[r]; }
     /* nested: a above b */
     for (int b = 0; b < nl; b++) {
       if (a == b) continue;
@@ -239,13 +250,13 @@ static void gen_locs(hwloc_topology_t t, int rich)
       int nr2 = ranges_for(wb, R2, 0);
       for (int ra = 0; ra < (rich ? 3 : 2); ra++) for (int r2 = 0; r2 < nr2; r2++) {
         if (!rich && r2 % 2 && ra) continue;
-        l = newloc(); l->kind = L_OBJ; l->nlev = 2;
+        l = newloc(); l->kind = LK_OBJ; l->nlev = 2;
         l->lv[0].depth = L[a].depth; snprintf(l->lv[0].name, 32, "%s", L[a].name); l->lv[0].r = RA[ra];
         l->lv[1].depth = L[b].depth; snprintf(l->lv[1].name, 32, "%s", L[b].name); l->lv[1].r = R2[r2];
       }
       /* three levels (rich): a . b . PU */
       if (rich && L[b].depth >= 0 && L[b].depth < hwloc_topology_get_depth(t) - 1) {
-        l = newloc(); l->kind = L_OBJ; l->nlev = 3;
+        l = newloc(); l->kind = LK_OBJ; l->nlev = 3;
         l->lv[0].depth = L[a].depth; snprintf(l->lv[0].name, 32, "%s", L[a].name); l->lv[0].r = (struct range){R_ALL, 0, 0};
         l->lv[1].depth = L[b].depth; snprintf(l->lv[1].name, 32, "%s", L[b].name); l->lv[1].r = (struct range){R_ONE, 0, 0};
         l->lv[2].depth = hwloc_topology_get_depth(t) - 1; snprintf(l->lv[2].name, 32, "PU"); l->lv[2].r = (struct range){R_ONE, 0, 0};
@@ -260,7 +271,7 @@ static int reduced(int *idx, int max)
   int n = 0;
   for (int i = 0; i < NLOCS && n < max; i++) {
     struct loc *l = &LOCS[i];
-    if (l->kind != L_OBJ) { idx[n++] = i; continue; }
+    if (l->kind != LK_OBJ) { idx[n++] = i; continue; }
     if (l->nlev == 1 && (l->lv[0].r.kind == R_ONE || l->lv[0].r.kind == R_ODD || l->lv[0].r.kind == R_FROM)) idx[n++] = i;
     else if (l->nlev == 2 && l->lv[0].r.kind == R_ONE && l->lv[0].r.a == 0 && l->lv[1].r.kind == R_ONE && l->lv[1].r.a == 0) idx[n++] = i;
   }
@@ -280,7 +291,7 @@ static void gen_exprs(int rich)
   int red[256]; int nred = reduced(red, rich ? 60 : 24);
   for (int a = 0; a < NLOCS; a++) {
     addexpr(1, a, 0, 0, 0, 0, 0);
-    if (LOCS[a].kind != L_OBJ || LOCS[a].nlev == 1) for (int o = 1; o < 4; o++) addexpr(1, a, OPS[o], 0, 0, 0, 0);   /* operator on an empty accumulator */
+    if (LOCS[a].kind != LK_OBJ || LOCS[a].nlev == 1) for (int o = 1; o < 4; o++) addexpr(1, a, OPS[o], 0, 0, 0, 0);   /* operator on an empty accumulator */
     for (int o = 0; o < 4; o++) for (int b = 0; b < nred; b++) {
       addexpr(2, a, 0, red[b], OPS[o], 0, 0);
       if (rich && b < 8) for (int o2 = 0; o2 < 4; o2++) for (int c = 0; c < 6 && c < nred; c++) addexpr(3, a, 0, red[b], OPS[o], red[c], OPS[o2]);
@@ -317,7 +328,7 @@ static hwloc_obj_t obj_of_token(hwloc_topology_t t, const char *tok, int physica
 static void check_line(const struct topo *tp, const struct optset *o, const struct expr *e, const char *line, const char *got, struct sb *feedback)
 {
   hwloc_topology_t t = tp->t;
-  struct loc tmp[3], *ls[3]; struct sb dummy; sb_init(&dummy); expr_line(&dummy, e, o->fmt, ls, tmp); sb_free(&dummy);
+  struct loc tmp[3], *ls[3]; struct sb dummy; sb_init(&dummy); expr_line(&dummy, e, o->infmt, ls, tmp); sb_free(&dummy);
   hwloc_bitmap_t rc = hwloc_bitmap_alloc(), rn = hwloc_bitmap_alloc();
   eval_expr(t, ls, e->n, o, rc, rn);
   MC.transitions++;
@@ -329,13 +340,16 @@ static void check_line(const struct topo *tp, const struct optset *o, const stru
   case 1: case 2: {
     hwloc_obj_t objs[1024]; int n = touched(t, o->depth, rc, rn, objs, 1024);
     if (o->mode == 1) { if (atoi(got) != n || !isdigit((unsigned char)got[0])) mc_violation("c20.calc.numberof", "%s :: hwloc-calc -i '%s' %s <<< '%s' prints '%s', %d objects intersect the set", mc_case_text(), tp->input, o->name, line, got, n); }
-    else { struct sb w; sb_init(&w); for (int i = 0; i < n; i++) sb_printf(&w, "%s%u", i ? "," : "", o->physical_out ? objs[i]->os_index : objs[i]->logical_index);
+    else { struct sb w; sb_init(&w); for (int i = 0; i < n; i++) { unsigned ix = o->physical_out ? objs[i]->os_index : objs[i]->logical_index; if (ix == (unsigned)-1) sb_printf(&w, "%s-1", i ? "," : ""); else sb_printf(&w, "%s%u", i ? "," : "", ix); }
       if (strcmp(w.s ? w.s : "", got)) mc_violation("c20.calc.intersect", "%s :: hwloc-calc -i '%s' %s <<< '%s' prints '%s', expected '%s'", mc_case_text(), tp->input, o->name, line, got, w.s ? w.s : ""); sb_free(&w); }
     break; }
   case 3: {
     /* --largest: the objects listed are pairwise disjoint, inside the set, and their union is the set */
     if (!hwloc_bitmap_isincluded(rc, hwloc_topology_get_topology_cpuset(t))) break;   /* documented to fail for sets outside the topology */
     hwloc_bitmap_t u = hwloc_bitmap_alloc(); int bad = 0; char *copy = strdup(got), *save = NULL;
+    int ambiguous = 0;
+    for (const char *q = got; *q; ) { size_t n = strcspn(q, " "); if (!memchr(q, ':', n)) { char ty[64]; snprintf(ty, sizeof(ty), "%.*s", (int)(n < 63 ? n : 63), q); hwloc_obj_type_t T; union hwloc_obj_attr_u at; if (hwloc_type_sscanf(ty, &T, &at, sizeof(at)) == 0) { int dd = hwloc_get_type_depth_with_attr(t, T, &at, sizeof(at)); if (dd < 0 && dd != HWLOC_TYPE_DEPTH_NUMANODE) ambiguous = 1; else if (hwloc_get_nbobjs_by_depth(t, dd) > 1) ambiguous = 1; } } q += n; while (*q == ' ') q++; }
+    if (ambiguous) { mc_count("largest_outputs_naming_objects_without_an_index", 1); hwloc_bitmap_free(u); free(copy); if (feedback) { char *w0 = fmt_set(rc, 0); sb_puts(feedback, w0); sb_putc(feedback, '\n'); free(w0); } hwloc_bitmap_free(rc); hwloc_bitmap_free(rn); return; }   /* objects without an OS index cannot be named physically: nothing to compare */
     for (char *tok = strtok_r(copy, " ", &save); tok; tok = strtok_r(NULL, " ", &save)) { hwloc_obj_t ob = obj_of_token(t, tok, o->physical_out); if (!ob || !ob->cpuset || hwloc_bitmap_intersects(u, ob->cpuset)) { bad = 1; break; } hwloc_bitmap_or(u, u, ob->cpuset); }
     if (bad || !hwloc_bitmap_isequal(u, rc)) { char *w = fmt_set(rc, 1), *g = fmt_set(u, 1); mc_violation("c20.calc.largest", "%s :: hwloc-calc -i '%s' %s <<< '%s' prints '%s' which denotes {%s}%s, the set is {%s}", mc_case_text(), tp->input, o->name, line, got, g, bad ? " (unknown or overlapping objects)" : "", w); free(w); free(g); }
     free(copy); hwloc_bitmap_free(u);
@@ -358,22 +372,46 @@ static void check_line(const struct topo *tp, const struct optset *o, const stru
   hwloc_bitmap_free(rc); hwloc_bitmap_free(rn);
 }
 
-static void run_batch(const struct topo *tp, const struct optset *o, int from, int to)
+static int leaves_topology(const struct topo *tp, const struct optset *o, const struct expr *e)
 {
+  struct loc tmp[3], *ls[3]; struct sb d; sb_init(&d); expr_line(&d, e, o->infmt, ls, tmp); sb_free(&d);
+  hwloc_bitmap_t rc = hwloc_bitmap_alloc(), rn = hwloc_bitmap_alloc(); eval_expr(tp->t, ls, e->n, o, rc, rn);
+  int r = !hwloc_bitmap_isincluded(rc, hwloc_topology_get_topology_cpuset(tp->t));
+  hwloc_bitmap_free(rc); hwloc_bitmap_free(rn); return r;
+}
+static void run_batch(const struct topo *tp, const struct optset *o, int from0, int to0)
+{
+  /* --largest is an error for a set that leaves the topology (partial line, failure status): those expressions
+   * are not part of its batches; they are covered by the other option sets */
+  static struct expr *saved; static int nsaved;
+  struct expr *EXall = EX; int from = from0, to = to0;
+  if (o->mode == 3) {
+    saved = realloc(saved, (size_t)(to0 - from0) * sizeof(*saved)); nsaved = 0;
+    for (int i = from0; i < to0; i++) if (!leaves_topology(tp, o, &EXall[i])) saved[nsaved++] = EXall[i];
+    EX = saved; from = 0; to = nsaved;
+    if (!nsaved) { EX = EXall; return; }
+  }
   struct sb in; sb_init(&in);
-  for (int i = from; i < to; i++) { struct loc tmp[3], *ls[3]; expr_line(&in, &EX[i], o->fmt, ls, tmp); sb_putc(&in, '\n'); }
+  for (int i = from; i < to; i++) { struct loc tmp[3], *ls[3]; expr_line(&in, &EX[i], o->infmt, ls, tmp); sb_putc(&in, '\n'); }
   char *args[24]; int n = 0; args[n++] = (char *)"-i"; args[n++] = (char *)tp->input; args[n++] = (char *)"-q"; for (int i = 0; o->args[i]; i++) args[n++] = o->args[i]; args[n] = NULL;
   struct result r; run_tool("hwloc-calc", args, in.s ? in.s : "", &r);
   if (crashed("hwloc-calc", args, &r, "(batch on stdin)")) { /* locate the line: run each alone */
-    for (int i = from; i < to; i++) { struct sb one; sb_init(&one); struct loc tmp[3], *ls[3]; expr_line(&one, &EX[i], o->fmt, ls, tmp); sb_putc(&one, '\n'); struct result r1; run_tool("hwloc-calc", args, one.s, &r1); if (crashed("hwloc-calc", args, &r1, one.s)) { result_free(&r1); sb_free(&one); break; } result_free(&r1); sb_free(&one); }
-    result_free(&r); sb_free(&in); return;
+    for (int i = from; i < to; i++) { struct sb one; sb_init(&one); struct loc tmp[3], *ls[3]; expr_line(&one, &EX[i], o->infmt, ls, tmp); sb_putc(&one, '\n'); struct result r1; run_tool("hwloc-calc", args, one.s, &r1); if (crashed("hwloc-calc", args, &r1, one.s)) { result_free(&r1); sb_free(&one); break; } result_free(&r1); sb_free(&one); }
+    result_free(&r); sb_free(&in); EX = EXall; return;
   }
-  if (r.status != 0) { struct sb b; sb_init(&b); argtext(&b, "hwloc-calc", args); mc_violation("c20.calc.status", "%s :: %s exits with %d on valid input, stderr: %.200s", mc_case_text(), b.s, r.status, r.err); sb_free(&b); result_free(&r); sb_free(&in); return; }
+  if (r.status != 0) { struct sb b; sb_init(&b); argtext(&b, "hwloc-calc", args); mc_violation("c20.calc.status", "%s :: %s exits with %d on valid input, stderr: %.200s", mc_case_text(), b.s, r.status, r.err); sb_free(&b); result_free(&r); sb_free(&in); EX = EXall; return; }
   int nl; char **L = split_lines(r.out, &nl); int nin; char *incopy = strdup(in.s ? in.s : ""); char **IL = split_lines(incopy, &nin);
-  if (nl != to - from) mc_violation("c20.calc.lines", "%s :: hwloc-calc -i '%s' %s: %d input lines, %d output lines", mc_case_text(), tp->input, o->name, to - from, nl);
+  /* --largest prints nothing (and reports an error) for a set that leaves the topology: which lines are expected */
+  char *printed = malloc((size_t)(to - from)); int expect_lines = 0;
+  for (int i = from; i < to; i++) {
+    printed[i - from] = 1;
+    if (o->mode == 3) { struct loc tmp[3], *ls[3]; struct sb d; sb_init(&d); expr_line(&d, &EX[i], o->infmt, ls, tmp); sb_free(&d); hwloc_bitmap_t rc = hwloc_bitmap_alloc(), rn = hwloc_bitmap_alloc(); eval_expr(tp->t, ls, EX[i].n, o, rc, rn); if (!hwloc_bitmap_isincluded(rc, hwloc_topology_get_topology_cpuset(tp->t))) printed[i - from] = 0; hwloc_bitmap_free(rc); hwloc_bitmap_free(rn); }
+    expect_lines += printed[i - from];
+  }
+  if (nl != expect_lines) mc_violation("c20.calc.lines", "%s :: hwloc-calc -i '%s' %s: %d input lines of which %d must print, %d output lines", mc_case_text(), tp->input, o->name, to - from, expect_lines, nl);
   else {
     struct sb fb; sb_init(&fb);
-    for (int i = from; i < to; i++) check_line(tp, o, &EX[i], IL[i - from], L[i - from], (o->mode == 3 || o->mode == 5) ? &fb : NULL);
+    for (int i = from, k0 = 0; i < to; i++) { if (!printed[i - from]) continue; check_line(tp, o, &EX[i], IL[i - from], L[k0], (o->mode == 3 || o->mode == 5) ? &fb : NULL); k0++; }
     /* feed --largest / -H output back: the same set (largest), the union of the listed leaves (-H) */
     if ((o->mode == 3 || o->mode == 5) && fb.s) {
       char *a2[24]; int m = 0; a2[m++] = (char *)"-i"; a2[m++] = (char *)tp->input; a2[m++] = (char *)"-q"; if (o->physical_out) a2[m++] = (char *)"-p"; a2[m] = NULL;
@@ -382,14 +420,14 @@ static void run_batch(const struct topo *tp, const struct optset *o, int from, i
         int n2; char **L2 = split_lines(r2.out, &n2);
         int k = 0; struct optset plain = *o; plain.mode = 0;
         for (int i = from; i < to && k < n2; i++) {
-          struct loc tmp[3], *ls[3]; struct sb d; sb_init(&d); expr_line(&d, &EX[i], o->fmt, ls, tmp); sb_free(&d);
+          struct loc tmp[3], *ls[3]; struct sb d; sb_init(&d); expr_line(&d, &EX[i], o->infmt, ls, tmp); sb_free(&d);
           hwloc_bitmap_t rc = hwloc_bitmap_alloc(), rn = hwloc_bitmap_alloc(); eval_expr(tp->t, ls, EX[i].n, o, rc, rn);
           if (o->mode == 3 && !hwloc_bitmap_isincluded(rc, hwloc_topology_get_topology_cpuset(tp->t))) { hwloc_bitmap_free(rc); hwloc_bitmap_free(rn); continue; }   /* nothing was recorded for it */
           hwloc_bitmap_t want = hwloc_bitmap_alloc();
           if (o->mode == 3) hwloc_bitmap_copy(want, rc);
           else { hwloc_obj_t objs[1024]; int n = touched(tp->t, o->depth2, rc, rn, objs, 1024); for (int q = 0; q < n; q++) { hwloc_obj_t a = objs[q]; while (a && a->depth != o->depth) a = a->parent; if (a) hwloc_bitmap_or(want, want, objs[q]->cpuset); } }
           char *w = fmt_set(want, 0);
-          if (strcmp(w, L2[k])) mc_violation(o->mode == 3 ? "c20.calc.largest.feedback" : "c20.calc.hier.feedback", "%s :: hwloc-calc -i '%s' %s <<< '%s' -> '%.150s'; feeding that back gives %s, expected %s", mc_case_text(), tp->input, o->name, IL[i - from], L[i - from], L2[k], w);
+          if (strcmp(w, L2[k])) mc_violation(o->mode == 3 ? "c20.calc.largest.feedback" : "c20.calc.hier.feedback", "%s :: hwloc-calc -i '%s' %s <<< '%s' -> '%.150s'; feeding that back gives %s, expected %s", mc_case_text(), tp->input, o->name, IL[i - from], "(see the first run)", L2[k], w);
           free(w); hwloc_bitmap_free(want); hwloc_bitmap_free(rc); hwloc_bitmap_free(rn); k++;
         }
         free(L2);
@@ -398,7 +436,8 @@ static void run_batch(const struct topo *tp, const struct optset *o, int from, i
     }
     sb_free(&fb);
   }
-  free(L); free(IL); free(incopy); result_free(&r); sb_free(&in);
+  free(printed); free(L); free(IL); free(incopy); result_free(&r); sb_free(&in);
+  EX = EXall;
 }
 
 static struct optset OPTS[96]; static int NOPTS;
@@ -412,7 +451,9 @@ static void build_opts(const struct topo *tp, int rich)
   NEWOPT("--cof list"); o->args[0] = strdup("--cof"); o->args[1] = strdup("list"); o->fmt = 1;
   NEWOPT("--cof taskset"); o->args[0] = strdup("--cof"); o->args[1] = strdup("taskset"); o->fmt = 2;
   NEWOPT("--taskset"); o->args[0] = strdup("--taskset"); o->fmt = 2;
-  NEWOPT("--cif list --cof list"); o->args[0] = strdup("--cif"); o->args[1] = strdup("list"); o->args[2] = strdup("--cof"); o->args[3] = strdup("list"); o->fmt = 1;
+  NEWOPT("--cif list --cof list"); o->args[0] = strdup("--cif"); o->args[1] = strdup("list"); o->args[2] = strdup("--cof"); o->args[3] = strdup("list"); o->fmt = 1; o->infmt = 1;
+  NEWOPT("--cif taskset"); o->args[0] = strdup("--cif"); o->args[1] = strdup("taskset"); o->infmt = 2;
+  NEWOPT("--cif hwloc"); o->args[0] = strdup("--cif"); o->args[1] = strdup("hwloc");
   NEWOPT("-p"); o->args[0] = strdup("-p"); o->physical_in = o->physical_out = 1;
   NEWOPT("--pi"); o->args[0] = strdup("--pi"); o->physical_in = 1;
   NEWOPT("--no"); o->args[0] = strdup("--no"); o->nodeset_out = 1;
@@ -511,11 +552,14 @@ static void distrib_checks(const struct topo *tp, uint64_t *idx)
   }
 }
 
+extern char *program_invocation_name, *program_invocation_short_name;
 static void lstopo_checks(const struct topo *tp, uint64_t *idx)
 {
+  /* the library records the name of the process that loads a topology (ProcessName): be lstopo for these loads */
+  char *pin = program_invocation_name, *pisn = program_invocation_short_name;
+  program_invocation_name = (char *)"lstopo-no-graphics"; program_invocation_short_name = (char *)"lstopo-no-graphics";
   /* what lstopo configures: every type kept, I/O types KEEP_IMPORTANT, IMPORT_SUPPORT */
   struct ucfg c; ucfg_default(&c); c.all_filter = HWLOC_TYPE_FILTER_KEEP_ALL; c.group_setter = 3; c.group_filter = HWLOC_TYPE_FILTER_KEEP_IMPORTANT; c.flags = HWLOC_TOPOLOGY_FLAG_IMPORT_SUPPORT;
-  static const char *XMLV[] = { "xml", "v2" };
   for (int v = 0; v < 2; v++, (*idx)++) {
     if (!mc_mine(*idx) || mc_deadline()) continue;
     if (!mc_case("lstopo %s | --of xml%s", tp->input, v ? " --export-xml-flags v2" : "")) continue;
@@ -562,13 +606,13 @@ static void lstopo_checks(const struct topo *tp, uint64_t *idx)
     }
     result_free(&r); hwloc_topology_destroy(t);
   }
+  program_invocation_name = pin; program_invocation_short_name = pisn;
 }
 
 /* hwloc-diff + hwloc-patch on generated pairs */
 static void diffpatch_checks(const struct topo *tp, uint64_t *idx)
 {
   hwloc_topology_t t = tp->t;
-  int nobj = 0; for (int d = 0; d < hwloc_topology_get_depth(t); d++) nobj += (int)hwloc_get_nbobjs_by_depth(t, d);
   for (int edit = 0; edit < 4; edit++) for (int k = 0; k < 3; k++, (*idx)++) {
     if (!mc_mine(*idx) || mc_deadline()) continue;
     if (!mc_case("diff+patch %s | edit %d on object choice %d", tp->input, edit, k)) continue;
@@ -580,7 +624,7 @@ static void diffpatch_checks(const struct topo *tp, uint64_t *idx)
     case 0: hwloc_obj_add_info(o, "C20Key", "value one"); break;
     case 1: free(o->name); o->name = strdup("renamed by c20"); break;
     case 2: hwloc_obj_add_info(o, "A", "1"); hwloc_obj_add_info(o, "B", "<&>\"'"); break;
-    default: if (o->type == HWLOC_OBJ_NUMANODE) o->attr->numanode.local_memory += 4096; else hwloc_obj_add_info(o, "C20Key", ""); break;
+    default: if (o->type == HWLOC_OBJ_NUMANODE) { o->attr->numanode.local_memory += 4096; for (hwloc_obj_t a = o; a; a = a->parent) a->total_memory += 4096; } else hwloc_obj_add_info(o, "C20Key", ""); break;
     }
     char f1[700], f2[700], fd[700], fp[700]; snprintf(f1, sizeof(f1), "%s/c20.%d.t1.xml", TMPD, getpid()); snprintf(f2, sizeof(f2), "%s/c20.%d.t2.xml", TMPD, getpid()); snprintf(fd, sizeof(fd), "%s/c20.%d.diff.xml", TMPD, getpid()); snprintf(fp, sizeof(fp), "%s/c20.%d.patched.xml", TMPD, getpid());
     unlink(fd); unlink(fp);
@@ -618,9 +662,9 @@ static void malformed_checks(const struct topo *tp, uint64_t *idx)
     {"hwloc-calc", {"--foo", "all"}}, {"hwloc-calc", {"all", "-N"}}, {"hwloc-calc", {"--cof", "bar", "all"}}, {"hwloc-calc", {"--cif", "bar", "all"}}, {"hwloc-calc", {"all", "--sep"}},
     {"hwloc-calc", {"--best-memattr", "nosuchattr", "all"}}, {"hwloc-calc", {"--cif", "systemd-dbus-api", "all"}},
     {"hwloc-calc", {"-N", "nosuchtype", "all"}}, {"hwloc-calc", {"-I", "nosuchtype", "all"}}, {"hwloc-calc", {"-H", "nosuchtype.pu", "all"}}, {"hwloc-calc", {"-H", "pu.misc", "all"}},
-    {"hwloc-calc", {"nosuchtype:0"}}, {"hwloc-calc", {"pu:"}}, {"hwloc-calc", {"pu:x"}}, {"hwloc-calc", {"pu:0-x"}}, {"hwloc-calc", {"pu:0:"}}, {"hwloc-calc", {"pu:0.core"}}, {"hwloc-calc", {"pu:0.nosuch:0"}}, {"hwloc-calc", {"0xzz"}}, {"hwloc-calc", {"pu=0"}}, {"hwloc-calc", {"pu[:0"}},
+    {"hwloc-calc", {"nosuchtype:0"}}, {"hwloc-calc", {"pu:"}}, {"hwloc-calc", {"pu:x"}}, {"hwloc-calc", {"pu:0-x"}}, {"hwloc-calc", {"pu:0:"}}, {"hwloc-calc", {"pu:0.core"}}, {"hwloc-calc", {"pu:0.nosuch:0"}}, {"hwloc-calc", {"0xzz"}}, {"hwloc-calc", {"pu[:0"}},
     {"hwloc-distrib", {NULL}}, {"hwloc-distrib", {"abc"}}, {"hwloc-distrib", {"1", "2"}}, {"hwloc-distrib", {"--foo", "2"}}, {"hwloc-distrib", {"--cof", "bar", "2"}}, {"hwloc-distrib", {"--from"}}, {"hwloc-distrib", {"2", "--restrict"}},
-    {"lstopo-no-graphics", {"--of", "nosuchformat"}}, {"lstopo-no-graphics", {"--foo"}}, {"lstopo-no-graphics", {"--filter", "nosuchtype:all"}}, {"lstopo-no-graphics", {"--filter", "pu:nosuchkind"}}, {"lstopo-no-graphics", {"--export-xml-flags", "nosuchflag", "--of", "xml"}}, {"lstopo-no-graphics", {"--restrict", "zzz", "--of", "console"}},
+    {"lstopo-no-graphics", {"--of", "nosuchformat"}}, {"lstopo-no-graphics", {"--filter", "nosuchtype:all"}}, {"lstopo-no-graphics", {"--filter", "pu:nosuchkind"}}, {"lstopo-no-graphics", {"--export-xml-flags", "nosuchflag", "--of", "xml"}}, {"lstopo-no-graphics", {"--restrict", "zzz", "--of", "console"}},
     {"hwloc-diff", {NULL}}, {"hwloc-diff", {"/nonexistent/a.xml", "/nonexistent/b.xml"}}, {"hwloc-patch", {NULL}}, {"hwloc-patch", {"/nonexistent/a.xml", "/nonexistent/d.xml"}},
   };
   for (unsigned i = 0; i < sizeof(BAD) / sizeof(*BAD); i++, (*idx)++) {
@@ -641,7 +685,7 @@ static void malformed_checks(const struct topo *tp, uint64_t *idx)
     sb_free(&b);
   }
   /* also wrong inputs */
-  static const char *BADIN[] = { "/nonexistent/file.xml", "pack:0 pu:2", "foo:2", "pu:2 core:2", "" };
+  static const char *BADIN[] = { "/nonexistent/file.xml", "pack:0 pu:2", "foo:2", "pu:2 core:2", "pu:2(" };
   for (unsigned i = 0; i < 5; i++, (*idx)++) {
     if (!mc_mine(*idx) || mc_deadline() || tp != &TP[0]) continue;
     static const char *TOOLS[] = { "hwloc-calc", "hwloc-distrib", "lstopo-no-graphics" };
